@@ -7,6 +7,7 @@ import os, sys, json
 sys.path.insert(0, os.path.join(os.path.dirname(os.path.abspath(__file__)), '..', 'lib'))
 from common import *
 import c01, c02, c09, c14, c15, c16, c17
+import viewlib
 
 PID = 'C06'
 BASE = Config('sse2', 'c++14', '-O2')         # the configuration of the pinned test suite
@@ -105,8 +106,22 @@ def main():
             rep.violation('program "%s", output line %s %s: %s differs between %s (%s) and %s (%s)' % (name, bad[0][0], bad[0][1], bad[1], BASE.name, bad[2], cfg.name, bad[3]),
                           {'program': name, 'line': list(bad[0]), 'baseline_cfg': BASE.name, 'cfg': cfg.name, 'baseline_values': bad[2], 'values': bad[3], 'compile_cmd': ' '.join(cfg.cmd('t.cpp', 't.exe')),
                            'source_generator': 'props/c06.py corpus(seed=%d) -> "%s"' % (sd, name)}, key='differs:%s:%s' % (name, '+'.join(cfg.macros) or cfg.name))
-    rep.cov.update({'evaluations': n_cmp, 'distinct_nontrivial': len(jobs),
-                    'rule': 'corpus = sampled check programs of C01 (matmul), C17 (tmatmul), C02 (expressions), C16 (reductions), C14 (permute/transpose), C15 (3-operand einsum), C09 (lazy linear algebra); each compiled under the baseline %s and under %d other configurations: the six-ISA covering array (C++14/17, -O0/-O2/-O3), FASTOR_DONT_VECTORISE, FASTOR_USE_HADD, FASTOR_MATMUL_OUTER/INNER_BLOCK_SIZE, FASTOR_TRANS_OUTER/INNER_BLOCK_SIZE, FASTOR_DONT_PERFORM_OP_MIN, FASTOR_USE_VECTORISED_EXPR_ASSIGN, assertions on (-UNDEBUG), FASTOR_ENABLE_RUNTIME_CHECKS; every output line compared with the baseline (integer-valued results identical, others within 2e-5 relative); the compiler verdict per (program, configuration)' % (BASE.name, len(vs)),
+    # ---- views (runtime-driven harness of C04/C05/C18) under the vectorised-view-assignment macro and with vectorisation off:
+    #      compared with the Coq view model, which the default configurations meet (C05)
+    R, W, O = viewlib.gen_dynamic(sd, 'quick')
+    vcfgs = [Config('avx2', 'c++14', '-O2', ['FASTOR_USE_VECTORISED_EXPR_ASSIGN']), Config('sse2', 'c++17', '-O2', ['FASTOR_USE_VECTORISED_EXPR_ASSIGN']),
+             Config('avx512', 'c++14', '-O2', ['FASTOR_USE_VECTORISED_EXPR_ASSIGN']), Config('avx2', 'c++14', '-O2', ['FASTOR_DONT_VECTORISE'])]
+    vrecs, vst, _ = viewlib.run_dynamic(vcfgs, R[::3], W[::2] if tr == 'quick' else W, O[::2], want=('R', 'W', 'O'), types=['double', 'float', 'int32'] if tr == 'quick' else None)
+    vseen = set()
+    for r in vrecs:
+        c = r['case']; k = (r['kind'], r['cfg'], r['ty'], c.get('rank') if isinstance(c, dict) else 0)
+        if k in vseen: continue
+        vseen.add(k); cfgo = next(x for x in vcfgs if x.name == r['cfg'])
+        rep.violation('view %s under %s (%s, rank %s) differs from the configuration-independent view semantics: %s; case %s' % (r['kind'], r['cfg'], r['ty'], k[3], str(r['detail'])[:200], json.dumps({kk: vv for kk, vv in c.items() if kk != 'id'}, default=str)[:200] if isinstance(c, dict) else c),
+                      {'record': r, 'compile_cmd': ' '.join(cfgo.cmd('t.cpp', 't.exe')), 'harness': 'props/viewlib.py cpp_dynamic(%r)' % r['ty']}, key='views:%s:%s:%s:rank%s' % (r['kind'], '+'.join(cfgo.macros), r['ty'], k[3]))
+    n_cmp += vst.get('evals', 0)
+    rep.cov.update({'view_evaluations_under_macro_configurations': vst.get('evals', 0), 'evaluations': n_cmp, 'distinct_nontrivial': len(jobs),
+                    'rule': 'corpus = sampled check programs of C01 (matmul), C17 (tmatmul), C02 (expressions), C16 (reductions), C14 (permute/transpose), C15 (3-operand einsum), C09 (lazy linear algebra); each compiled under the baseline %s and under %d other configurations: the six-ISA covering array (C++14/17, -O0/-O2/-O3), FASTOR_DONT_VECTORISE, FASTOR_USE_HADD, FASTOR_MATMUL_OUTER/INNER_BLOCK_SIZE, FASTOR_TRANS_OUTER/INNER_BLOCK_SIZE, FASTOR_DONT_PERFORM_OP_MIN, FASTOR_USE_VECTORISED_EXPR_ASSIGN, assertions on (-UNDEBUG), FASTOR_ENABLE_RUNTIME_CHECKS; plus the dynamic-view harness of C04/C05/C18 (reads, writes with all operators, overlapping assignments) under FASTOR_USE_VECTORISED_EXPR_ASSIGN on three ISAs and under FASTOR_DONT_VECTORISE, compared with the view model; every output line compared with the baseline (integer-valued results identical, others within 2e-5 relative); the compiler verdict per (program, configuration)' % (BASE.name, len(vs)),
                     'configurations': [c.name for c, _ in vs], 'programs': [n for n, _, _ in progs], 'compiler_acceptance': accept, 'output_lines_compared_per_configuration': per, 'traces_validated_against_impl': n_cmp})
     rep.assumptions = ['floating-point results are compared with a relative tolerance of 2e-5 (the corpus data is integer-valued, so most results are exact)', 'compiler acceptance is observed, not proved']
     return rep.finish(proof=proof, trusted=['Coq 8.16.1 kernel (coqc)', 'lib/common.py, props/c06.py and the generators of c01, c02, c09, c14, c15, c16, c17', 'g++ 12 (and clang++ 14 in the thorough tier)'])
